@@ -5,9 +5,9 @@ namespace Verif.Drv.StdioOut
 open Verif.Model.StdioOut
 -- DRIVER: stdio_writer
 
-def codePoints (s : String) : List Nat := s.toList.map Char.toNat
+def codePoints (s : String) : List Char := s.toList
 
-partial def fromJson (j : Lean.Json) : Except String Verif.Model.StdioOut.Json :=
+partial def fromJson (j : Lean.Json) : Except String Verif.Model.Json.Json :=
   match j with
   | .null => pure .null
   | .bool b => pure (.bool b)
@@ -36,8 +36,8 @@ def handle (j : Lean.Json) : Except String Lean.Json := do
     | _ => return Outbound.unserialisable)
   let close := (j.getObjValAs? Bool "close").toOption.getD true
   let sty := match j.getObjValAs? String "style" with
-    | .ok "std" => Style.std
-    | _ => Style.compact
+    | .ok "std" => Verif.Model.Json.stdStyle
+    | _ => Verif.Model.Json.orjsonStyle
   let rejs ← match j.getObjValAs? (Array Lean.Json) "rejs" with
     | .ok a => a.toList.mapM fromJson
     | .error _ => pure []
